@@ -160,6 +160,9 @@ pub struct StateStore {
     checkpoints: Arc<RwLock<Vec<CheckpointMetadata>>>,
     /// Last checkpoint time
     last_checkpoint: Arc<RwLock<u64>>,
+    /// Every checkpoint id handed out by this store; an id is never reused, even
+    /// after retention has removed the checkpoint it named
+    issued_checkpoint_ids: Arc<RwLock<std::collections::HashSet<String>>>,
     /// Redis connection (if using Redis backend)
     #[cfg(feature = "streaming-redis")]
     redis_client: Option<Arc<RwLock<Client>>>,
@@ -191,6 +194,7 @@ impl StateStore {
             state: Arc::new(RwLock::new(HashMap::new())),
             checkpoints: Arc::new(RwLock::new(Vec::new())),
             last_checkpoint: Arc::new(RwLock::new(0)),
+            issued_checkpoint_ids: Arc::new(RwLock::new(std::collections::HashSet::new())),
             #[cfg(feature = "streaming-redis")]
             redis_client,
         }
@@ -487,15 +491,41 @@ impl StateStore {
         count
     }
 
+    /// Whether a checkpoint id is already taken (handed out before, or present on disk)
+    fn checkpoint_id_in_use(&self, id: &str) -> bool {
+        if self.issued_checkpoint_ids.read().unwrap().contains(id) {
+            return true;
+        }
+        match &self.config.backend {
+            StateBackend::File { path } => path.join(id).exists(),
+            _ => false,
+        }
+    }
+
     /// Create a checkpoint of current state
     pub fn checkpoint(&mut self, name: impl Into<String>) -> StateResult<String> {
-        let checkpoint_id = format!(
+        let base_id = format!(
             "checkpoint_{}",
             SystemTime::now()
                 .duration_since(UNIX_EPOCH)
                 .unwrap()
                 .as_millis()
         );
+
+        // The wall-clock millisecond alone does not identify a checkpoint: two
+        // checkpoints can fall into the same millisecond and the clock can step
+        // back. Never reuse an id that is listed or whose directory exists, or a
+        // new checkpoint would overwrite (and, if interrupted, destroy) an old one.
+        let mut checkpoint_id = base_id.clone();
+        let mut suffix = 0u32;
+        while self.checkpoint_id_in_use(&checkpoint_id) {
+            suffix += 1;
+            checkpoint_id = format!("{}_{}", base_id, suffix);
+        }
+        self.issued_checkpoint_ids
+            .write()
+            .unwrap()
+            .insert(checkpoint_id.clone());
 
         let state = self.state.read().unwrap();
         let snapshot: HashMap<String, Value> = state
